@@ -22,6 +22,9 @@ uint32_t lec_backend_version(int be);      /* read from the exported backend des
 /* configuration sets */
 int cfgs_rs(cfg_t *out, int max, int be, int thorough, uint64_t seed);   /* (k,m) shapes for an RS-like backend */
 int cfgs_xor(cfg_t *out, int max);
+int cfgs_phazr(cfg_t *out, int max);                                      /* stand-in libphazr shapes (backend metadata grows with the payload, encode offset != 0) */
+int cfgs_jer(cfg_t *out, int max);                                        /* stand-in libJerasure shapes (word sizes 8/16/32; bit-matrix code with 1 KiB packets) */
+int cfg_jer_w(const cfg_t *c);                                            /* effective word size of a jerasure configuration */
 int cfgs_shss(cfg_t *out, int max);                                       /* stand-in libshss shapes (backend metadata = 32 bytes) */                                        /* the 38 tables */
 
 /* ---- generator rows / recoverability oracle ---- */
@@ -31,6 +34,7 @@ typedef struct {
     uint8_t  g8[32 * 32];     /* isa-l generator */
     uint32_t x[64];           /* xor rows */
     const xor_table_t *xt;
+    int mds;                  /* stand-in libJerasure codes: Cauchy matrices, any k rows independent (rank = min(distinct rows, k)) */
 } code_t;
 void code_init(code_t *cd, const cfg_t *c);
 /* rank of the generator rows with the given indexes */
@@ -78,7 +82,8 @@ void pres_free(pres_t *p);
 #define DATA_HIGH 3       /* all bytes >= 0x80 */
 #define DATA_BOUNDARY 4   /* zeros with a non-zero byte at each fragment boundary */
 #define DATA_EDGE 5       /* every fragment starts with runs of edge-value words: ffff.., 0000, 0001, fffe, 8000, 00ff, ff00 */
-#define DATA_KINDS 6
+#define DATA_CRC0 6       /* random, the last four bytes of data fragment 0 (and 1) chosen so that the payload checksum is 0 (resp. ffffffff) */
+#define DATA_KINDS 7
 void data_fill(uint8_t *buf, uint64_t len, int kind, rng_t *r, int k, uint64_t payload);
 const char *data_kind_name(int kind);
 
@@ -97,6 +102,8 @@ typedef struct {
     int desc2;               /* a second, separately created instance of the same configuration (reader twin) */
     int nstr; stripe_t st[MAXSTR]; uint8_t *data[MAXSTR]; int kind[MAXSTR];
 } ctx_t;
+/* payload size (the bytes the checksum covers: no header, no backend-owned tail) of a fragment of the context with this length */
+uint64_t ctx_payload_size(const ctx_t *x, uint64_t flen);
 extern int LEC_MODEL_LEGACY;
 extern const char *LEC_PROP;     /* property id used for violations raised in set-up cases */
 int  ctx_open(ctx_t *x, const cfg_t *c, const uint64_t *lens, const int *kinds, int nlen);
